@@ -1,5 +1,5 @@
 From Coq Require Import Extraction ExtrOcamlBasic NArith List.
-From SV.Simd Require Import Blocked.
+From SV.Simd Require Import Blocked QuoteCap.
 Extraction Language OCaml.
 Separate Extraction lspace_avx2 lspace_sse lspace_spec memcchr_p32_avx2 memcchr_p32_sse
-  memcchr_quote_unsafe_avx2 memcchr_quote_unsafe_sse lanes_mask mask needs_quote is_backslash N.of_nat N.to_nat.
+  memcchr_quote_unsafe_avx2 memcchr_quote_unsafe_sse lanes_mask mask needs_quote is_backslash memcchr_quote_avx2 memcchr_quote_sse N.of_nat N.to_nat.
